@@ -102,6 +102,57 @@ theorem avg_occurrences_scale_with_traffic (k : Rat) (s : Series) (hs : Series.S
     | cons a l ih => simp only [List.map_cons, List.sum_cons, ih]; ring
   rw [this]; ring
 
+/-! ## one device among several: the pattern's footprint moves by exactly that device's share -/
+
+/-- physical value of a scalar (0 for anything else) -/
+def scalarPhys : Val → Rat
+  | .q x => x.phys
+  | _ => 0
+
+/-- the per-device terms (all converted to one unit by the rule: `.to(u.g)`, `.to(u.W)`) are summed
+term by term: nothing is lost, nothing counted twice — whatever the devices are called -/
+theorem sum_of_device_terms (u : Efp.Unit) (hu : u.scale ≠ 0) (terms : List Qty) (hterms : ∀ q ∈ terms, q.unit = u)
+    (acc : Qty) (hacc : acc.unit = u) :
+    ∃ r : Qty, sumVals (.q acc) (terms.map Val.q) = .ok (.q r) ∧ r.unit = u ∧
+      r.phys = acc.phys + (terms.map Qty.phys).sum := by
+  induction terms generalizing acc with
+  | nil => exact ⟨acc, rfl, hacc, by simp⟩
+  | cons x xs ih =>
+    have hx : x.unit = u := hterms x (by simp)
+    have hadd : acc.add x = .ok ⟨acc.mag + x.phys / acc.unit.scale, acc.unit⟩ := by
+      simp [Qty.add, hacc, hx]
+    obtain ⟨r, h2, hr, hp⟩ := ih (fun q hq => hterms q (by simp [hq])) ⟨acc.mag + x.phys / acc.unit.scale, acc.unit⟩ hacc
+    refine ⟨r, ?_, hr, ?_⟩
+    · simp only [sumVals, List.map_cons, List.foldlM_cons, bind, Except.bind, Val.add, hadd, pure, Except.pure] at h2 ⊢
+      exact h2
+    · rw [hp]
+      simp only [List.map_cons, List.sum_cons, Qty.phys]
+      have hs : acc.unit.scale ≠ 0 := by rw [hacc]; exact hu
+      field_simp
+      ring
+
+/-- **multiplying one device's term by `k` moves the sum over the devices by `(k − 1)` times that term**
+(the shadowing of seed C12-e — terms keyed by device name — would make the move 0) -/
+theorem device_share (u : Efp.Unit) (hu : u.scale ≠ 0) (before after : List Qty) (t : Qty) (k : Rat)
+    (hb : ∀ q ∈ before ++ t :: after, q.unit = u) (acc : Qty) (hacc : acc.unit = u) :
+    ∃ r r' : Qty,
+      sumVals (.q acc) ((before ++ t :: after).map Val.q) = .ok (.q r) ∧
+      sumVals (.q acc) ((before ++ scaleQty k t :: after).map Val.q) = .ok (.q r') ∧
+      r'.phys = r.phys + (k - 1) * t.phys := by
+  have hb' : ∀ q ∈ before ++ scaleQty k t :: after, q.unit = u := by
+    intro q hq
+    rcases List.mem_append.mp hq with h | h
+    · exact hb q (List.mem_append_left _ h)
+    · rcases List.mem_cons.mp h with rfl | h
+      · exact hb t (by simp)
+      · exact hb q (List.mem_append_right _ (List.mem_cons_of_mem _ h))
+  obtain ⟨r, h1, _, hp⟩ := sum_of_device_terms u hu _ hb acc hacc
+  obtain ⟨r', h1', _, hp'⟩ := sum_of_device_terms u hu _ hb' acc hacc
+  refine ⟨r, r', h1, h1', ?_⟩
+  rw [hp, hp']
+  simp only [List.map_append, List.map_cons, List.sum_append, List.sum_cons, phys_scaleQty]
+  ring
+
 /-- the autoscaling / on-premise instance counts are **not** proportional (ceiling): witness -/
 theorem ceil_not_proportional : Series.ceil (Series.scale 3 [(0, 1/2)]) ≠ Series.scale 3 (Series.ceil [(0, 1/2)]) := by
   decide +kernel
